@@ -62,3 +62,164 @@ Print Assumptions C04_flush_durable_async.
 Print Assumptions C04_stop_durable_async.
 Print Assumptions C04_flush_durable_sync.
 Print Assumptions C04_async_dead_write_lost.
+
+(* ------------------------------------------------------------------ the other three naming schemes, every write mode *)
+(* C04 for NumbersDirect, TimestampsDirect and Timestamps naming; numdmcfg / tsdmcfg / tsmcfg: ANY write mode (Direct,
+   BufWriter of any capacity, asynchronous).  Statements only (proofs: Flw/NumDAsync.v, Flw/TsdAsync.v, Flw/TsAsync.v).
+   Asynchronous mode: "after the flush" is after the writer thread has consumed the flush message (scheduling assumption). *)
+Require Import FL.Time.Civil FL.Oracles.O_Flw FL.Flw.NumDInv FL.Flw.NumDRun FL.Flw.NumDTheorems FL.Flw.TsCal FL.Flw.TsTime FL.Flw.TsNames FL.Flw.TsInv
+  FL.Flw.TsRun FL.Flw.TsTheorems FL.Flw.TsdInv FL.Flw.TsdRun FL.Flw.TsdTheorems
+  FL.Flw.AsyncTransfer FL.Flw.NumDAsync FL.Flw.TsdAsync FL.Flw.TsAsync.
+
+Theorem C04_flush_durable_numbersdirect :
+  forall c crit t0 off ops,
+    numdmcfg c crit -> Forall basic_op ops ->
+    let x := fst (run (sys0 t0 off) (OStart c :: ops ++ [OFlush])) in
+    exists files, direct_view c (wfs (s_w x)) files /\ concat files = written ops
+      /\ pending x = []
+      /\ (forall m, crit = CSize m -> files = expected_files m None (items false ops)).
+Proof. exact numd_flush_durable. Qed.
+
+Theorem C04_stop_durable_numbersdirect :
+  forall c crit t0 off ops,
+    numdmcfg c crit -> Forall basic_op ops ->
+    let x := fst (run (sys0 t0 off) (OStart c :: ops ++ [OStop])) in
+    exists files, direct_view c (wfs (s_w x)) files /\ concat files = written ops
+      /\ pending x = [] /\ s_flw x = None
+      /\ (forall m, crit = CSize m -> files = expected_files m None (items false ops)).
+Proof. exact numd_stop_durable. Qed.
+
+Theorem C04_flush_durable_timestampsdirect :
+  forall c crit t0 off ops,
+    tsdmcfg c crit -> tag_ok c -> Forall basic_op ops -> Forall tick_ok ops ->
+    (0 <= t0 + ts_e c off)%Z -> (t0 + elapsed ops + ts_e c off < sec_max)%Z -> (N.of_nat (S (length ops)) <= usize_max)%N ->
+    let x := fst (run (sys0 t0 off) (OStart c :: ops ++ [OFlush])) in
+    exists keys files,
+      tsd_view c (ts_e c off) (wfs (s_w x)) keys files /\ concat files = written ops
+      /\ keys_ok keys /\ (forall k, In k keys -> (t0 <= fst k <= t0 + elapsed ops)%Z)
+      /\ pending x = []
+      /\ (forall m, crit = CSize m -> files = expected_files m None (items false ops) /\ keys = tsd_keys m t0 ops).
+Proof. exact tsd_flush_durable. Qed.
+
+Theorem C04_stop_durable_timestampsdirect :
+  forall c crit t0 off ops,
+    tsdmcfg c crit -> tag_ok c -> Forall basic_op ops -> Forall tick_ok ops ->
+    (0 <= t0 + ts_e c off)%Z -> (t0 + elapsed ops + ts_e c off < sec_max)%Z -> (N.of_nat (length ops) <= usize_max)%N ->
+    let x := fst (run (sys0 t0 off) (OStart c :: ops ++ [OStop])) in
+    exists keys files,
+      tsd_view c (ts_e c off) (wfs (s_w x)) keys files /\ concat files = written ops
+      /\ keys_ok keys /\ (forall k, In k keys -> (t0 <= fst k <= t0 + elapsed ops)%Z)
+      /\ pending x = [] /\ s_flw x = None
+      /\ (forall m, crit = CSize m -> files = expected_files m None (items false ops) /\ keys = tsd_keys m t0 ops).
+Proof. exact tsd_stop_durable. Qed.
+
+Theorem C04_flush_durable_timestamps :
+  forall c crit t0 off ops,
+    tsmcfg c crit -> tag_ok c -> Forall basic_op ops -> Forall tick_ok ops ->
+    (0 <= t0 + ts_e c off)%Z -> (t0 + elapsed ops + ts_e c off < sec_max)%Z -> (N.of_nat (S (length ops)) <= usize_max)%N ->
+    let x := fst (run (sys0 t0 off) (OStart c :: ops ++ [OFlush])) in
+    exists keys a,
+      ts_dir c (ts_e c off) (wfs (s_w x)) keys a /\ flat a = written ops
+      /\ keys_ok keys /\ (forall k, In k keys -> (t0 <= fst k <= t0 + elapsed ops)%Z)
+      /\ pending x = []
+      /\ (forall m, crit = CSize m ->
+            a = s_run m None ops /\ files_of a = expected_files m None (items false ops) /\ keys = ts_keys m t0 ops).
+Proof. exact ts_flush_durable. Qed.
+
+Theorem C04_stop_durable_timestamps :
+  forall c crit t0 off ops,
+    tsmcfg c crit -> tag_ok c -> Forall basic_op ops -> Forall tick_ok ops ->
+    (0 <= t0 + ts_e c off)%Z -> (t0 + elapsed ops + ts_e c off < sec_max)%Z -> (N.of_nat (length ops) <= usize_max)%N ->
+    let x := fst (run (sys0 t0 off) (OStart c :: ops ++ [OStop])) in
+    exists keys a,
+      ts_dir c (ts_e c off) (wfs (s_w x)) keys a /\ flat a = written ops
+      /\ keys_ok keys /\ (forall k, In k keys -> (t0 <= fst k <= t0 + elapsed ops)%Z)
+      /\ pending x = [] /\ s_flw x = None
+      /\ (forall m, crit = CSize m ->
+            a = s_run m None ops /\ files_of a = expected_files m None (items false ops) /\ keys = ts_keys m t0 ops).
+Proof. exact ts_stop_durable. Qed.
+
+(* asynchronous mode: in addition the writer thread is still running after the flush, and gone after the drop *)
+Theorem C04_flush_durable_async_numbersdirect :
+  forall c crit t0 off ops,
+    numdacfg c crit -> Forall basic_op ops ->
+    let x := fst (run (sys0 t0 off) (OStart c :: ops ++ [OFlush])) in
+    exists files, direct_view c (wfs (s_w x)) files /\ concat files = written ops
+      /\ pending x = [] /\ s_dead x = false
+      /\ (forall m, crit = CSize m -> files = expected_files m None (items false ops)).
+Proof. exact async_numd_flush_durable. Qed.
+
+Theorem C04_stop_durable_async_numbersdirect :
+  forall c crit t0 off ops,
+    numdacfg c crit -> Forall basic_op ops ->
+    let x := fst (run (sys0 t0 off) (OStart c :: ops ++ [OStop])) in
+    exists files, direct_view c (wfs (s_w x)) files /\ concat files = written ops
+      /\ pending x = [] /\ s_flw x = None /\ s_dead x = true
+      /\ (forall m, crit = CSize m -> files = expected_files m None (items false ops)).
+Proof. exact async_numd_stop_durable. Qed.
+
+Theorem C04_flush_durable_async_timestampsdirect :
+  forall c crit t0 off ops,
+    tsdacfg c crit -> tag_ok c -> Forall basic_op ops -> Forall tick_ok ops ->
+    (0 <= t0 + ts_e c off)%Z -> (t0 + elapsed ops + ts_e c off < sec_max)%Z -> (N.of_nat (S (length ops)) <= usize_max)%N ->
+    let x := fst (run (sys0 t0 off) (OStart c :: ops ++ [OFlush])) in
+    exists keys files,
+      tsd_view c (ts_e c off) (wfs (s_w x)) keys files /\ concat files = written ops
+      /\ keys_ok keys /\ (forall k, In k keys -> (t0 <= fst k <= t0 + elapsed ops)%Z)
+      /\ pending x = [] /\ s_dead x = false
+      /\ (forall m, crit = CSize m -> files = expected_files m None (items false ops) /\ keys = tsd_keys m t0 ops).
+Proof. exact async_tsd_flush_durable. Qed.
+
+Theorem C04_stop_durable_async_timestampsdirect :
+  forall c crit t0 off ops,
+    tsdacfg c crit -> tag_ok c -> Forall basic_op ops -> Forall tick_ok ops ->
+    (0 <= t0 + ts_e c off)%Z -> (t0 + elapsed ops + ts_e c off < sec_max)%Z -> (N.of_nat (length ops) <= usize_max)%N ->
+    let x := fst (run (sys0 t0 off) (OStart c :: ops ++ [OStop])) in
+    exists keys files,
+      tsd_view c (ts_e c off) (wfs (s_w x)) keys files /\ concat files = written ops
+      /\ keys_ok keys /\ (forall k, In k keys -> (t0 <= fst k <= t0 + elapsed ops)%Z)
+      /\ pending x = [] /\ s_flw x = None /\ s_dead x = true
+      /\ (forall m, crit = CSize m -> files = expected_files m None (items false ops) /\ keys = tsd_keys m t0 ops).
+Proof. exact async_tsd_stop_durable. Qed.
+
+Theorem C04_flush_durable_async_timestamps :
+  forall c crit t0 off ops,
+    tsacfg c crit -> tag_ok c -> Forall basic_op ops -> Forall tick_ok ops ->
+    (0 <= t0 + ts_e c off)%Z -> (t0 + elapsed ops + ts_e c off < sec_max)%Z -> (N.of_nat (S (length ops)) <= usize_max)%N ->
+    let x := fst (run (sys0 t0 off) (OStart c :: ops ++ [OFlush])) in
+    exists keys a,
+      ts_dir c (ts_e c off) (wfs (s_w x)) keys a /\ flat a = written ops
+      /\ keys_ok keys /\ (forall k, In k keys -> (t0 <= fst k <= t0 + elapsed ops)%Z)
+      /\ pending x = [] /\ s_dead x = false
+      /\ (forall m, crit = CSize m ->
+            a = s_run m None ops /\ files_of a = expected_files m None (items false ops) /\ keys = ts_keys m t0 ops).
+Proof. exact async_ts_flush_durable. Qed.
+
+Theorem C04_stop_durable_async_timestamps :
+  forall c crit t0 off ops,
+    tsacfg c crit -> tag_ok c -> Forall basic_op ops -> Forall tick_ok ops ->
+    (0 <= t0 + ts_e c off)%Z -> (t0 + elapsed ops + ts_e c off < sec_max)%Z -> (N.of_nat (length ops) <= usize_max)%N ->
+    let x := fst (run (sys0 t0 off) (OStart c :: ops ++ [OStop])) in
+    exists keys a,
+      ts_dir c (ts_e c off) (wfs (s_w x)) keys a /\ flat a = written ops
+      /\ keys_ok keys /\ (forall k, In k keys -> (t0 <= fst k <= t0 + elapsed ops)%Z)
+      /\ pending x = [] /\ s_flw x = None /\ s_dead x = true
+      /\ (forall m, crit = CSize m ->
+            a = s_run m None ops /\ files_of a = expected_files m None (items false ops) /\ keys = ts_keys m t0 ops).
+Proof. exact async_ts_stop_durable. Qed.
+
+Check C04_flush_durable_numbersdirect. Check C04_stop_durable_numbersdirect.
+Check C04_flush_durable_timestampsdirect. Check C04_stop_durable_timestampsdirect.
+Check C04_flush_durable_timestamps. Check C04_stop_durable_timestamps.
+Print Assumptions C04_flush_durable_numbersdirect.
+Print Assumptions C04_stop_durable_numbersdirect.
+Print Assumptions C04_flush_durable_timestampsdirect.
+Print Assumptions C04_stop_durable_timestampsdirect.
+Print Assumptions C04_flush_durable_timestamps.
+Print Assumptions C04_stop_durable_timestamps.
+Print Assumptions C04_flush_durable_async_numbersdirect.
+Print Assumptions C04_stop_durable_async_numbersdirect.
+Print Assumptions C04_flush_durable_async_timestampsdirect.
+Print Assumptions C04_stop_durable_async_timestampsdirect.
+Print Assumptions C04_flush_durable_async_timestamps.
+Print Assumptions C04_stop_durable_async_timestamps.
